@@ -270,7 +270,12 @@ func driveReplay[C any, O any](t *testing.T, eng Engine[C, O], a *Args) {
 	// test iterates its own Go maps (randomised inside the runtime, no seam): on a tree where the property holds
 	// the outcome does not depend on it (determinism self-test), on a broken tree it may. A replay therefore
 	// re-executes the scenario until the recorded violation shows, at most replayAttempts times.
-	res := SafeRun(t, eng, nil, sc)
+	var rctx *Ctx
+	if os.Getenv("VERIF_REPLAY_LOG") != "" { // debugging aid: print the step log of the first execution
+		rctx = NewCtx()
+		rctx.Log = func(s string) { fmt.Fprintln(os.Stderr, s) }
+	}
+	res := SafeRun(t, eng, rctx, sc)
 	attempts := 1
 	for exp != nil && (res.Violation == nil || !exp.Same(res.Violation)) && attempts < replayAttempts {
 		r2 := SafeRun(t, eng, nil, sc)
